@@ -152,7 +152,7 @@ def write_cfg(name, programs, seminit="Zeros", clogic="Zeros", asfound_wake=Fals
     path = os.path.join(vlib.SPEC, SPEC, name)
     body = ["\\* generated by checks/c18.py", "CONSTANTS", "  MaxR = 3", "  NP = 1", "  SemInit <- %s" % seminit,
             "  CondLogic <- %s" % clogic, "  AsFoundWake = %s" % ("TRUE" if asfound_wake else "FALSE"),
-            "  AsFoundCleanup = %s" % ("TRUE" if asfound_cleanup else "FALSE"), "  Programs <- %s" % programs,
+            "  AsFoundCleanup = %s" % ("TRUE" if asfound_cleanup else "FALSE"), "  Which = \"%s\"" % programs, "  Programs <- ProgSel",
             "SPECIFICATION Spec", "INVARIANTS " + INVS]
     if emit:
         body += ["CONSTRAINT EmitProg"]
